@@ -186,7 +186,7 @@ def c05(c):
 
     # 3. code -> spec: random driver over arbitrary byte-string keys (completeness on real keys,
     #    random mutations at random sites of deep proofs), validated by TraceProof
-    ntr, steps = (120, 300) if thorough else (24, 250)
+    ntr, steps = (80, 300) if thorough else (16, 250)
     tr = os.path.join(c.scratch, "trace-proof.ndjson")
     targs = ["trace-proof", "-out", tr, "-n", ntr, "-steps", steps, "-minkeys", 16, "-maxkeys", 96, "-pool", "mixed"]
     rep = vf.run_harness("vh-tree", targs, env={"VERIF_SEED": c.seed})
